@@ -16,7 +16,9 @@ import vlib
 LEVEL = "proof"
 MODULE = "Sqfs.Props.C04"
 REQUIRED = ["Sqfs.C04.readNumber_exact_or_error", "Sqfs.C04.number_roundtrip", "Sqfs.C04.number_roundtrip_signed",
-            "Sqfs.C04.checksum_roundtrip"]
+            "Sqfs.C04.checksum_roundtrip", "Sqfs.C04.prefix_digit_len_correct", "Sqfs.C04.schily_record_length",
+            "Sqfs.C04.sparse_expand_spec", "Sqfs.C04.specExpand_length", "Sqfs.C04.mtime_clamp", "Sqfs.C04.mtime_overwrite_path_safe",
+            "Sqfs.C04.prefix_strip", "Sqfs.C04.root_handling", "Sqfs.C04.implicit_parents"]
 EXCLUDE = ("lib/tar/src/write_header.c", "lib/tar/src/read_header.c")     # #included by the harness (static helpers)
 U64 = 1 << 64
 
@@ -282,6 +284,22 @@ KEY_D27 = "D27:skipped-socket-leaves-extension-records"
 KEY_D22 = "D22:sparse-data-exceeds-record"
 
 
+def classify_reader(ctx, op, line, impl_out, stats):
+    """impl differs from the repaired model: is it the unrepaired reader (D22 sparse bound, D28 xattr order)?  Reports the matching
+    known findings and returns True; returns False if no variant of the unrepaired code explains the output."""
+    variants = [("0", "0")]
+    outs = run_model(ctx, ["%sx %s %s %s" % (op, r, k, line.split(" ", 1)[1]) for r, k in variants])
+    for (r, k), o in zip(variants, outs):
+        if o == impl_out:
+            if r == "0":
+                stats["known_d22_seen"] = stats.get("known_d22_seen", 0) + 1
+                ctx.violation(KEY_D22, "a sparse map whose data regions exceed the record size is accepted; record_size wraps and the following members "
+                              "are swallowed/skipped (%s)" % impl_out[:160], {"unit": [line]})
+            return True
+    return False
+
+
+
 def encnum(v, w, style):
     """numeric field in a chosen dialect; falls back to base-256 when octal does not fit"""
     if v < 0:
@@ -477,7 +495,7 @@ def roundtrip_failures(e, d):
     if fm in (S_IFCHR, S_IFBLK) and (int(d["maj"]) != e["maj"] or int(d["min"]) != e["min"]):
         bad.append("devno")
     got_x = [] if d["xattr"] == "-" else [tuple(untok(t) for t in p.split(":")) for p in d["xattr"].split(",")]
-    if sorted(got_x) != sorted(e["xattrs"]) or got_x != list(reversed(e["xattrs"])):
+    if sorted(got_x) != sorted(e["xattrs"]) or got_x != list(reversed(e["xattrs"])):     # the reader prepends: reverse order (modelled)
         bad.append("xattr")
     if d["unk"] != "0":
         bad.append("unknown-record")
@@ -525,6 +543,8 @@ def unit_headers(ctx, harness, stats):
     for j, i in enumerate(idx):
         if back[j] != back_model[j]:
             stats["disagreements_checked"] += 1
+            if classify_reader(ctx, "dec", l2[j], back[j], stats):
+                continue
             report(ctx, "dec-corr", "dec-corr:" + vlib.sha(l2[j])[:12], "read_header: model and code differ on the writer's output for %s: impl=%s model=%s" % (
                 lines[i][:120], back[j][:300], back_model[j][:300]), {"unit": [l2[j]]}, found_input=False)
     for i, e in enumerate(es):
@@ -874,7 +894,6 @@ def unit_reader(ctx, harness, stats):
         ctx.violation("crash:dec", "read_header aborted (rc=%s): %s" % (rc, err[-400:]), {"unit": [lines[min(k, len(lines) - 1)]], "stderr": err})
         return
     model = run_model(ctx, lines)
-    cur = run_model(ctx, ["deccur" + l[3:] for l in lines])
     hist, d22 = {}, 0
     for i, l in enumerate(lines):
         b, exp, cls = members[i] if i < len(members) else (None, None, "seed-archive")
@@ -888,16 +907,12 @@ def unit_reader(ctx, harness, stats):
                        {"unit": [l]})
             continue
         stats["disagreements_checked"] += 1
-        if impl[i] == cur[i] and model[i] == "err" and impl[i].startswith("ok "):
-            d22 += 1
-            ctx.violation(KEY_D22, "read_header accepts a sparse map whose data regions exceed the record size (%s)" % impl[i][:200], {"unit": [l]})
-        else:
+        if not classify_reader(ctx, "dec", l, impl[i], stats):
             report(ctx, "dec-corr", "dec:" + vlib.sha(l)[:12], "read_header: model and code differ on a %s member: impl=%s model=%s" % (cls, impl[i][:300], model[i][:300]),
                    {"unit": [l]}, found_input=bool(bad))
     stats["evaluations"] += 3 * len(lines)
     stats["dec_members"] = len(lines)
     stats["dec_classes"] = hist
-    stats["dec_known_d22_seen"] = d22
     stats["samples"].append({"op": "dec <%s member, %d bytes>" % (members[1][2], len(members[1][0])), "impl": impl[1][:300]})
 
     # whole archives through the iterator (sparse expansion, record/padding accounting)
@@ -917,7 +932,6 @@ def unit_reader(ctx, harness, stats):
         ctx.violation("crash:iter", "tar iterator aborted (rc=%s): %s" % (rc, err[-400:]), {"unit": [lines[min(k, len(lines) - 1)]], "stderr": err})
         return
     model = run_model(ctx, lines)
-    cur = run_model(ctx, ["itercur" + l[4:] for l in lines])
     nsparse = 0
     for i, l in enumerate(lines):
         ms = archives[i][1] if i < len(archives) else []
@@ -949,10 +963,7 @@ def unit_reader(ctx, harness, stats):
                 report(ctx, "iter-spec", "iter-spec:" + vlib.sha(l)[:12], "tar iterator mishandles a well-formed archive (%s)" % bad, {"unit": [l]})
             continue
         stats["disagreements_checked"] += 1
-        if impl[i] == cur[i]:
-            ctx.violation(KEY_D22, "sparse data larger than the record: record_size wraps, following members are swallowed/skipped (iterator output %s…)" % impl[i][:160],
-                          {"unit": [l]})
-        else:
+        if not classify_reader(ctx, "iter", l, impl[i], stats):
             report(ctx, "iter-corr", "iter:" + vlib.sha(l)[:12], "tar iterator: model and code differ: impl=%s model=%s" % (impl[i][:300], model[i][:300]),
                    {"unit": [l]}, found_input=bool(bad))
     stats["evaluations"] += 3 * len(lines)
@@ -1142,6 +1153,10 @@ def tool_conv(ctx, harness, stats):
 # ------------------------------------------------------------------ entry points
 def run(ctx):
     ok, problems = vlib.proof_gate(ctx, MODULE, REQUIRED)
+    okw, logw = ctx.lean_build(["Sqfs.Witness.C04"])              # the witnesses of the known findings must keep checking too
+    if not okw:
+        ok = False
+        problems = list(problems) + ["lake build Sqfs.Witness.C04 failed: " + logw[-1500:]]
     if not ok:
         ctx.violation("proof:C04", "proof obligations of C04 no longer check: " + " | ".join(problems)[:1500],
                       {"broken": problems, "theorems_file": "lean/Sqfs/Props/C04.lean"}, found_input=False)
@@ -1166,8 +1181,8 @@ def run(ctx):
         tools_stats["wall_s"] = round(time.time() - t1, 1)
     nontrivial = stats.pop("nontrivial")
     ctx.cov.update({
-        "evaluations": stats.pop("evaluations") + int(tools_stats.get("evaluations", 0)),
-        "distinct_nontrivial": len(nontrivial) + int(tools_stats.get("distinct_nontrivial", 0)),
+        "evaluations": stats.pop("evaluations") + int(tools_stats.get("counters", {}).get("tool_runs", 0)),
+        "distinct_nontrivial": len(nontrivial) + int(tools_stats.get("archives_total", 0)) + int(tools_stats.get("socket_images", 0)),
         "rule": "unit level: every generated field/value/header through the real lib/tar function (ASan+UBSan) and the Lean model, "
                 "specification predicates evaluated on the implementation's answer; non-trivial = distinct input that is not a plain "
                 "terminated octal number (leading blanks, no terminator, base-256, overflow, …) / distinct writer argument / distinct header. "
